@@ -115,7 +115,15 @@ fn run_caller(case: &Value) -> Value {
         let before = sc.grow_log.len();
         {
             let w: &mut DiplomatWrite = unsafe { &mut *(&mut m as *mut Mirror as *mut DiplomatWrite) };
-            let r = w.write_str(&ch);
+            // every way a Rust caller writes through fmt::Write: write_str, write_char (single-char chunks), write! / write_fmt
+            let via = case["via"].as_str().unwrap_or("str");
+            let r = if via == "char" && ch.chars().count() == 1 {
+                w.write_char(ch.chars().next().unwrap())
+            } else if via == "fmt" {
+                write!(w, "{}", ch)
+            } else {
+                w.write_str(&ch)
+            };
             assert!(r.is_ok());
         }
         let mem = unsafe { core::slice::from_raw_parts(m.buf, m.cap) }.to_vec();
